@@ -625,6 +625,7 @@ func combineInitialE(ctx *ref.RoundCtx, rp *ref.QueryRound, x ref.E) ref.E {
 
 func TestC13(t *testing.T) {
 	s := newSuite("C13")
+	compiledEvery = 25
 	r := s.r
 	defer r.Flush()
 	r.Rule("(i) sub-gadgets through export hooks: calculateSubgroupX on all-bit-pattern/random indices for nLog 5..32; computeEvaluation on all 16 within-coset positions x random evaluation vectors, betas and domain points (degenerate beta-on-coset stratum expects REJECT); finalPolyEval for 1..32 coefficients; friCombineInitial on random shapes, batches, alpha, openings.  (ii) whole verifyQueryRound on real rounds of the corpus and on rounds constructed backwards with the reference (1..3 reduction steps, random shapes, random high bits of the query challenge): every later element is computed from the earlier ones, Merkle trees are sealed over random siblings.  (iii) each constructed round with one ingredient changed, re-sealing the Merkle trees where needed so that only the algebra can reject (initial leaf, evaluation at/away from the query position, final-poly coefficient, alpha, beta, zeta, reduced opening), or without re-sealing, or an index bit; 'high bits only' must still accept.  Oracle: values equal the reference; round ACCEPT <=> reference round check passes.  Non-trivial = every case except unmodified constructed rounds are also counted (they exercise the accept side); distinct = full case.")
